@@ -166,9 +166,14 @@ func c06R4(c *Ctx) {
 	for _, fn := range c.ifaceMethodImpls(pkgWorkflow, "ExecutableWorkflow", "Execute") {
 		key := "grace@" + c.fnName(fn)
 		var sels []*ssa.Select
-		for _, op := range c.chanOps(fn) {
-			if op.Kind == "select" && op.Blocking {
-				sels = append(sels, op.Sel)
+		for _, g2 := range c.logicalBody(fn) { // Execute and the helpers split off it, in call order
+			if g2.Parent() != nil {
+				continue
+			}
+			for _, op := range c.chanOps(g2) {
+				if op.Kind == "select" && op.Blocking {
+					sels = append(sels, op.Sel)
+				}
 			}
 		}
 		if len(sels) < 2 {
@@ -178,7 +183,7 @@ func c06R4(c *Ctx) {
 		first := sels[0]
 		// the go of a function that closes all steps, reachable only after the first select
 		var goTerm ssa.Instruction
-		eachInstr(fn, func(r instrRef) {
+		c.eachInstrLogical(fn, func(r instrRef) {
 			if gi, ok := r.I.(*ssa.Go); ok {
 				for _, callee := range g.Callees(gi) {
 					reach := g.reach([]*ssa.Function{callee}, false, false)
